@@ -267,8 +267,12 @@ func (check *Checker) missingMethod(V Type, T *Interface, static bool) (method *
 	}
 
 	if len(T.allMethods) != 0 {
-		if _, ok := V.(*Pointer); !ok {
-			return T.allMethods[0], false
+		// Wa: only pointer types implement a non-empty interface. That rule is about concrete
+		// types; an interface value is checked by its method set below.
+		if _, isIface := V.Underlying().(*Interface); !isIface {
+			if _, ok := V.(*Pointer); !ok {
+				return T.allMethods[0], false
+			}
 		}
 	}
 
